@@ -264,7 +264,16 @@ func init() {
 			up := Edge{src, "out"}
 			subFrom := []Edge{up}
 			unordered := false
-			switch t.Choose(simrt.StGen, 4, 0) {
+			switch t.Choose(simrt.StGen, 5, 0) {
+			case 4:
+				// two different upstream processes feed the gathering component: the
+				// source directly and a process working on a second source - they finish
+				// and close at different times (arrival order between them undetermined)
+				nb := 1 + t.Choose(simrt.StGen, 3, 0)
+				pb := oneToOne(w, "preb", Edge{srcNode(w, "srcb", nb, dir), "out"})
+				subFrom = []Edge{up, {pb, "o0"}}
+				unordered = true
+				c.Probe("substream-fed-by-two-processes")
 			case 1, 2:
 				up = Edge{oneToOne(w, "pre", up), "o0"}
 				subFrom = []Edge{up}
@@ -293,10 +302,28 @@ func init() {
 				// the same port a second time, with a path modifier
 				joinMod = []string{"basename", "%.txt", "s/src/SRC/"}[t.Choose(simrt.StGen, 3, 0)]
 			}
-			j := addNode(w, Node{Name: "join", Kind: KProc, Cores: 1, JoinMod: joinMod,
+			jn := Node{Name: "join", Kind: KProc, Cores: 1, JoinMod: joinMod,
 				Ins:  joinIns,
-				Outs: []OutSpec{{Name: "o0", Pattern: "joined.join.o0"}}})
-			if t.Choose(simrt.StGen, 2, 0) == 1 {
+				Outs: []OutSpec{{Name: "o0", Pattern: "joined.join.o0"}}}
+			// the output is named after the joined in-port itself (the random path of
+			// the sub-stream carrier: the reference cannot predict the name, so only
+			// the joining task itself is judged then)
+			nameFromJoined := t.Choose(simrt.StGen, 5, 0) == 1
+			if nameFromJoined {
+				jn.Outs[0].Pattern = "{i:x|basename}.join.o0"
+			} else if t.Choose(simrt.StGen, 4, 0) == 1 {
+				// a parameter port next to the joined port, with as many or more values
+				// than there are sub-streams (one): still exactly one task
+				ps := ParamSpec{Name: "p"}
+				for i := 0; i < 1+t.Choose(simrt.StGen, 3, 0); i++ {
+					ps.Vals = append(ps.Vals, fmt.Sprintf("pv%d", i))
+				}
+				jn.Params = []ParamSpec{ps}
+				jn.Outs[0].Pattern = "joined.{p:p}.join.o0"
+				c.Probe("joined-port-next-to-a-parameter-port")
+			}
+			j := addNode(w, jn)
+			if !nameFromJoined && len(jn.Params) == 0 && t.Choose(simrt.StGen, 2, 0) == 1 {
 				oneToOne(w, "post", Edge{j, "o0"})
 			}
 			second := t.Choose(simrt.StGen, 3, 0) == 1
@@ -448,6 +475,12 @@ func init() {
 				if strings.Join(gotB, " ") != strings.Join(wantB, " ") {
 					return Viol("join-members", "", "second joining process: placeholder expanded to %v (resolved: %v); its sub-stream was %v", jbs[0].Joined, gotB, wantB)
 				}
+			}
+			if nameFromJoined || len(jn.Params) > 0 {
+				if !completedOK(inc) {
+					return Viol("join-no-completion", "", "workflow with a joined in-port did not complete: %s", endDesc(inc))
+				}
+				return OK()
 			}
 			if unordered {
 				// the reference fixes one of the possible arrival orders: task key and
